@@ -15,10 +15,11 @@ CLAIMED = {
         note="Kernel-level only. Trusted: rustc/Kani translation, std as compiled by Kani, CBMC; for the MIR kernels every callee is a pure opaque value (listed in the evidence).",
         ref="2 C02", technique=MIX),
     "C03": dict(
-        text="PARTIAL (thin). Decides only 'defaults never count as presence': MatchedArg::set_source/check_explicit over all source sequences of length <= 3. "
-             "Conflict/requirement graph walking in the validator is out of reach and not claimed.",
-        note="Detects changes to check_explicit/set_source/is_explicit/ValueSource order only.",
-        ref="2 C03"),
+        text="PARTIAL (thin). (Kani) 'defaults never count as presence': MatchedArg::set_source/check_explicit over all source sequences of length <= 3. (MIR->SMT) the exclusive rule: "
+             "Validator::validate_exclusive accepts without search iff at most one argument is explicitly present, counts as present exactly the explicit real arguments, and reports an argument "
+             "iff it is exclusive and not alone. Conflict gathering, the required graph and conditional requirements are out of reach and not claimed.",
+        note="Detects changes to check_explicit/set_source/is_explicit/ValueSource order and to validate_exclusive and its closures only.",
+        ref="2 C03", technique=MIX),
     "C04": dict(
         text="Bounded model checking of the value parsers' decisions: ranged integer parsers on CONCRETE boundary literals against EVERY range (lo, hi over all 64-bit values, "
              "9 bound shapes) for each target width; boolean literal tables with a symbolic ASCII case per letter; possible-value matching with symbolic case and ignore_case (Kani). "
@@ -27,6 +28,13 @@ CLAIMED = {
         note="Stubs cut message construction only (fmt::format, Error::with_cmd, Error::value_validation/invalid_value, format_bounds, usage for the non-UTF-8 path); "
              "str::to_lowercase is replaced by to_ascii_lowercase (std's contract on ASCII-only input; inputs are ASCII-only). Counterexamples of the heavy harnesses are realised by a native witness search.",
         ref="2 C04", technique=MIX),
+    "C05": dict(
+        text="PARTIAL (thin). Solver-backed path enumeration (MIR->SMT) of ONE iteration of Parser::parse's token loop entered with trailing_values == true (the bare `--` was seen): on every feasible path the token is "
+             "not handed to subcommand recognition, long/short option parsing, the help subcommand or the 'looks like a new argument' test, and positional-only mode is still on when the loop continues. "
+             "Escape detection itself, the `last`/allow_missing_positional counter logic and value storage (react) are opaque callees or outside the fragment.",
+        note="One loop body as a MIR fragment from an arbitrary state; inner loops are cut at their back edge; every callee is a pure opaque value; a path with a forbidden call must be infeasible "
+             "(z3 + cvc5), realised natively through the public API otherwise.",
+        ref="2 C05", technique="own MIR->SMT translation: path enumeration of a loop body, infeasibility of violating paths by z3 + cvc5, native replay"),
     "C06": dict(
         text="PARTIAL. (Kani) source lattice (ValueSource order, set_source keeps the maximum, explicit-ness) for all source sequences <= 3, and the implicit default / "
              "missing-value tables of every ArgAction incl. what Arg::_build installs. (MIR->SMT) fixed phase order of Parser::get_matches_with and its error-ignoring recovery closure: "
@@ -78,7 +86,6 @@ CLAIMED = {
 
 NOT_APPLICABLE = {
     "C01": "whole-parser totality needs Command::build + Parser::parse under symbolic execution; a one-flag build does not finish symex in 17 min, a 2-token parse not in 15 min (DESIGN 0)",
-    "C05": "mechanism is three branches inside Parser::parse on a built command and matcher; not separable, parse loop unreachable for CBMC (DESIGN 0)",
     "C09": "subcommand recognition on even an unbuilt 2-subcommand tree exhausts 10 GB; dispatch/global propagation need built commands",
     "C11": "state that could leak is written by _build_self/_build_bin_names_internal which do not finish symbolic execution; needs repeated builds/parses",
     "C15": "proc-macro translation running inside rustc plus generated code over a built Command: neither reachable by Kani nor a loop-free scalar kernel for the MIR->SMT engine",
@@ -121,7 +128,7 @@ def main():
         "engines": [
             {"name": "kani", "path": "/verif/runner/kani.py", "serves_properties": sorted(p for p in CLAIMED if p != "C12"),
              "kind_free_text": "Kani 0.68/CBMC 6.11 harnesses (kani/lex external crate; harness/*.rs included into clap_builder under cfg clap_verif); counterexamples replayed natively via concrete playback"},
-            {"name": "mirsmt", "path": "/verif/runner/mir_check.py", "serves_properties": ["C02", "C04", "C06", "C10", "C12", "C20"],
+            {"name": "mirsmt", "path": "/verif/runner/mir_check.py", "serves_properties": ["C02", "C03", "C04", "C05", "C06", "C10", "C12", "C20"],
              "kind_free_text": "MIR (cargo +nightly rustc -Zunpretty=mir, overflow checks on) of loop-free scalar functions -> SMT-LIB2 bit-vector queries (mirsmt/*.py), decided by z3 and cvc5; candidates realised by a native #[test] in the harness module"},
         ],
         "checks": checks,
